@@ -1,6 +1,6 @@
 (* C08 — property theorems (statements only; proofs live in Proofs*.v).  See notes/C08.md for the status of each. *)
 From Coq Require Import List ZArith QArith Qabs Bool.
-Require Import QV.C08.Model QV.C08.Spec QV.C08.Wf QV.C08.Proofs QV.C08.ProofsVec QV.C08.ProofsRev QV.C08.ProofsConst QV.C08.ProofsTotal QV.C08.ProofsProper QV.C08.ProofsCtor QV.C08.Hist QV.C08.ProofsHist QV.C08.ProofsTrafo QV.C08.ProofsConstT QV.C08.ProofsTotalT QV.C08.ProofsTable QV.C08.ProofsPar QV.C08.ProofsOp QV.C08.ProofsFlat QV.C08.ProofsDen QV.C08.ProofsSimple.
+Require Import QV.C08.Model QV.C08.Spec QV.C08.Wf QV.C08.Proofs QV.C08.ProofsVec QV.C08.ProofsRev QV.C08.ProofsConst QV.C08.ProofsTotal QV.C08.ProofsProper QV.C08.ProofsCtor QV.C08.Hist QV.C08.ProofsHist QV.C08.ProofsTrafo QV.C08.ProofsConstT QV.C08.ProofsTotalT QV.C08.ProofsTable QV.C08.ProofsPar QV.C08.ProofsOp QV.C08.ProofsFlat QV.C08.ProofsDen QV.C08.ProofsSimple QV.C08.ProofsHistT.
 Import ListNotations.
 Open Scope Q_scope.
 
@@ -252,3 +252,13 @@ Theorem C08_sample_is_denotation : forall w, okb w = true -> plainrev w = true -
   inb c (channels w) = true -> 0 <= t -> t < duration w -> den w c t = sample w c t.
 Proof. exact sample_is_den. Qed.
 Print Assumptions C08_sample_is_denotation.
+
+(* with TransformingWaveform nodes: if every array object keeps its content over the history ([content]) and every
+   transformation is free of LinearTransformation parts, the per-instance cache stays coherent (by-products included) and
+   every call is answered like a single call on a fresh object.  Without the content hypothesis: refuted
+   (Example history_stale_refuted, known finding C08-trafo-cache-stale-after-inplace-times); with linear parts: only tested *)
+Theorem C08_history : forall w content calls, simple_all w = true ->
+  (forall c a ts, In (c, a, ts) calls -> ts = content a) ->
+  run_hist w calls [] = map (fun call => get_sampled w (fst (fst call)) (snd call)) calls.
+Proof. exact history_independent_simple. Qed.
+Print Assumptions C08_history.
